@@ -46,6 +46,9 @@ FORMS = [
     ("lambda2", "", "(|a, b| a * b + x)(x, 3)"),
     ("lambda_typed", "", "(|a:float| a + 1)(x)"),
     ("let_tuple_nested", "", "{ let (a, (b, c)) = (x, (2, 3))\n a + b * c }"),
+    ("let_tuple_siblings", "", "{ let ((a, b), (c, d)) = ((x, 2), (3, x + 4))\n a * 1000 + b * 100 + c * 10 + d }"),
+    ("let_tuple_placeholders", "", "{ let ((_, a), (_, b)) = ((1, x), (2, x + 5))\n a * 10 + b }"),
+    ("let_tuple_placeholder_deep", "", "{ let (_, (_, (_, c))) = (1, (2, (3, x)))\n c + 1 }"),
     ("letrec", "", "{ letrec fact = |n| if (n > 0) n * fact(n - 1) else 1\n fact(3) + x }"),
     ("if_no_else", "", "{ let z = if (x > 0) 5\n x }"),
     ("seq_assign", "", "{ let a = 1\n a = a + x\n a * 2 }"),
